@@ -103,7 +103,11 @@ func (e *Enc) orderObligations() {
 			}
 			switch f.Name() {
 			case "MapRange":
-				bad = append(bad, "reflect.Value.MapRange iterates in unspecified order")
+				// harmless when the function only copies the entries into a map: it calls nothing but package
+				// reflect, appends to nothing and concatenates no strings
+				if !e.onlyReflectAndMapStores() {
+					bad = append(bad, "reflect.Value.MapRange iterates in unspecified order")
+				}
 			case "MapKeys":
 				nLoops++
 				var acc ssa.Value = call
@@ -343,4 +347,42 @@ func (e *Enc) sortedAfter(acc ssa.Value, li *loopInfo) bool {
 		}
 	}
 	return false
+}
+
+// onlyReflectAndMapStores: no append, no string concatenation, no call outside package reflect (builtins len/make
+// aside) anywhere in the function - whatever order a MapRange yields, nothing order-sensitive can be built from it.
+func (e *Enc) onlyReflectAndMapStores() bool {
+	for _, blk := range e.fn.Blocks {
+		for _, in := range blk.Instrs {
+			switch x := in.(type) {
+			case *ssa.Call:
+				if b, isBuiltin := x.Common().Value.(*ssa.Builtin); isBuiltin {
+					if b.Name() == "append" || b.Name() == "copy" || b.Name() == "print" || b.Name() == "println" {
+						return false
+					}
+					continue
+				}
+				if x.Common().IsInvoke() {
+					// a method of an interface of package reflect (reflect.Type)
+					if m := x.Common().Method; m != nil && m.Pkg() != nil && m.Pkg().Path() == "reflect" {
+						continue
+					}
+					return false
+				}
+				f := x.Common().StaticCallee()
+				if f == nil || f.Pkg == nil || f.Pkg.Pkg.Path() != "reflect" {
+					return false
+				}
+			case *ssa.BinOp:
+				if x.Op == token.ADD {
+					if bt, ok := x.X.Type().Underlying().(*types.Basic); ok && bt.Info()&types.IsString != 0 {
+						return false
+					}
+				}
+			case *ssa.Go, *ssa.Defer, *ssa.Send:
+				return false
+			}
+		}
+	}
+	return true
 }
